@@ -1,18 +1,47 @@
-From Coq Require Import List ZArith Bool.
-From TskVerif Require Import C08.Rf.
+(* C08-F4 (fixed by e85e341): the repaired rf_distance is the documented symmetric
+   difference of the sample bipartitions, for all trees; the pinned pre-fix code was not. *)
+From Coq Require Import List ZArith Bool Lia.
+From TskVerif Require Import Base.Common C08.Rf.
 Import ListNotations.
 Open Scope Z_scope.
 
-(* samples 0 and 2; tree 1: 0 -> 1 -> 2 (node 1 unary); tree 2: 0 -> 2 and the
-   sample-less leaf 1 -> 2.  Same sample bipartitions, rf_distance = 1. *)
-Lemma rf_counts_empty_clade :
+Lemma zlist_eqb_true x y : zlist_eqb x y = true -> x = y.
+Proof. apply (list_eqb_eq Z.eqb). intros a b. apply Z.eqb_eq. Qed.
+
+Lemma existsb_filter_nonempty x t :
+  nonempty x = true -> existsb (zlist_eqb x) t = existsb (zlist_eqb x) (filter nonempty t).
+Proof.
+  intros Hx. induction t as [|y t IH]; [reflexivity|]. simpl.
+  destruct (nonempty y) eqn:Ey; simpl.
+  - rewrite IH. reflexivity.
+  - destruct (zlist_eqb x y) eqn:E; [|exact IH].
+    apply zlist_eqb_true in E. subst y. congruence.
+Qed.
+
+Lemma filter_ldedup l : filter nonempty (ldedup l) = ldedup (filter nonempty l).
+Proof.
+  induction l as [|x t IH]; [reflexivity|]. simpl.
+  destruct (nonempty x) eqn:Ex.
+  - simpl. rewrite <- (existsb_filter_nonempty x t Ex).
+    destruct (existsb (zlist_eqb x) t); [exact IH|]. simpl. rewrite Ex, IH. reflexivity.
+  - destruct (existsb (zlist_eqb x) t); [exact IH|]. simpl. rewrite Ex. exact IH.
+Qed.
+
+Lemma clades_code_is_spec p samples : clades_code p samples = clades_spec p samples.
+Proof. unfold clades_code, clades_spec, clades_code_pinned. apply filter_ldedup. Qed.
+
+Lemma rf_code_is_spec p1 p2 samples : rf_code p1 p2 samples = rf_spec p1 p2 samples.
+Proof. unfold rf_code, rf_spec. rewrite !clades_code_is_spec. reflexivity. Qed.
+
+(* the former witness: samples 0 and 2; tree 1: 0 -> 1 -> 2; tree 2: 0 -> 2 and the
+   sample-less leaf 1 -> 2 *)
+Example rf_former_witness :
+  rf_code [1; 2; -1] [2; 2; -1] [0; 2] = 0 /\ rf_code [3; 3; 4; 4; -1] [4; 3; 3; 4; -1] [0; 1; 2] = 2.
+Proof. split; reflexivity. Qed.
+
+(* historical: the pinned pre-fix code counted the empty sample set *)
+Lemma rf_pinned_counts_empty_clade :
   exists p1 p2 samples,
     p1 = [1; 2; -1] /\ p2 = [2; 2; -1] /\ samples = [0; 2] /\
-    rf_code p1 p2 samples = 1 /\ rf_spec p1 p2 samples = 0.
+    rf_code_pinned p1 p2 samples = 1 /\ rf_spec p1 p2 samples = 0.
 Proof. exists [1; 2; -1], [2; 2; -1], [0; 2]. repeat split; reflexivity. Qed.
-
-(* without sample-less subtrees the two notions coincide on this pair *)
-Example rf_agree_without_dead_subtrees :
-  rf_code [3; 3; 4; 4; -1] [4; 3; 3; 4; -1] [0; 1; 2] = 2 /\
-  rf_spec [3; 3; 4; 4; -1] [4; 3; 3; 4; -1] [0; 1; 2] = 2.
-Proof. split; reflexivity. Qed.
